@@ -62,9 +62,12 @@ def _havoc(c, it, o, typ, tag, nlist=1):
     """arbitrary state of a Result (same frame as the constructor produces)"""
     frame = {"name", "_update_type_code", "_value", "_total", "_result_sum", "_result_squared_sum", "num_updates",
              "_accumulate_values_bool", "_value_list", "_total_list"}
-    if set(o.fields) != frame:
+    if frame - set(o.fields):
         from pyvc.oblig import Inapplicable
         raise Inapplicable("Result fields %s" % sorted(set(o.fields) ^ frame))
+    # fields the contract does not know (derived/cached state added to the class) keep the value the constructor gave them: the
+    # arbitrary state is "any observations so far, nothing derived from them read yet"; the histories below then read the public
+    # statistics BEFORE and AFTER each operation, so anything derived has to follow the observations
     if typ == "CHOICE":
         v = np.empty(3, dtype=object)
         for i in range(3):
@@ -107,6 +110,20 @@ def _eq(a, b):
         return z3.And([_eq(x, y) for x, y in zip(a, b)]) if a else z3.BoolVal(True)
     r = (lift(a) == lift(b)) if (sym.is_sym(a) or sym.is_sym(b)) else (a == b)
     return r.t if isinstance(r, sym.SBool) else z3.BoolVal(bool(r))
+
+
+def _read_stats(it, o):
+    """the public statistics of a Result (mean, variance) as reported now; None where the update count may be zero"""
+    return it.call(it.getattr(o, "get_result_mean"), []), it.call(it.getattr(o, "get_result_var"), [])
+
+
+def _stats_goals(c, it, o, tag):
+    """mean == sum/n and var == sq/n - mean^2 of the CURRENT fields, read through the public getters (division-free form)"""
+    f = o.fields
+    n, sm, sq = lift(f["num_updates"]), lift(f["_result_sum"]), lift(f["_result_squared_sum"])
+    mean, var = _read_stats(it, o)
+    return [Goal("[%s] get_result_mean() * n == sum of the current observations" % tag, lift(mean) * n == sm),
+            Goal("[%s] get_result_var() * n^2 == n * squared sum - sum^2 of the current observations" % tag, lift(var) * n * n == n * sq - sm * sm)]
 
 
 def _eqv(a, b, typ):
@@ -177,8 +194,13 @@ def ob_update(typ, acc):
         s0 = _snap(o)
         v, t = _obs(c, typ, "o")
         c.inputs.update(v=v, t=t)
+        if typ in ("SUM", "RATIO"):
+            c.assume(o.fields["num_updates"] >= 1)
+            _read_stats(it, o)              # history: the statistics were asked for before the new observation arrives
         it.call(it.getattr(o, "update"), [v] + ([t] if t is not None else []))
         goals = [Goal("view' == view + obs", sym.SBool(_eq(_snap(o), _plus_obs(s0, typ, v, t, acc))))]
+        if typ in ("SUM", "RATIO"):
+            goals += _stats_goals(c, it, o, "after update")
         if typ == "RATIO":
             o2 = _havoc(c, it, _new(it, typ, acc), typ, "b")
             try:
@@ -194,13 +216,57 @@ def ob_update(typ, acc):
             desc="from ANY two states: self.merge(other) yields view(self)+view(other) (MISC: other wins) and leaves `other` "
                  "unchanged, sharing no list/array with it afterwards")
 def ob_merge(typ, acc):
+    def rp(model):
+        """statistics read, merge, statistics read again on real objects with generic observations"""
+        try:
+            R = _R()
+            rr = np.random.RandomState(8)
+            code = getattr(R, typ + "TYPE")
+            mk = (lambda nm: R(nm, code, acc, 3)) if typ == "CHOICE" else (lambda nm: R(nm, code, acc))
+            a, b = mk("r"), mk("r")
+            obs = {"a": [], "b": []}
+            for o, key, n in ((a, "a", 3), (b, "b", 4)):
+                for _ in range(n):
+                    if typ == "CHOICE":
+                        v = int(rr.randint(3))
+                        o.update(v)
+                    elif typ == "RATIO":
+                        v, t = float(rr.randint(0, 5)), float(rr.randint(5, 9))
+                        o.update(v, t)
+                        v = v / t
+                    else:
+                        v = float(rr.randn())
+                        o.update(v)
+                    obs[key].append(v)
+            if typ in ("SUM", "RATIO"):
+                a.get_result_mean(), a.get_result_var(), b.get_result_mean(), b.get_result_var()
+            a.merge(b)
+            if typ in ("SUM", "RATIO"):
+                both = np.array(obs["a"] + obs["b"])
+                for nm, o, x in (("self", a, both), ("operand", b, np.array(obs["b"]))):
+                    want_m, want_v = float(x.mean()), float((x ** 2).mean() - x.mean() ** 2)
+                    if (not (abs(o.get_result_mean() - want_m) <= 1e-12)) or (not (abs(o.get_result_var() - want_v) <= 1e-12)):
+                        return {"confirmed": True, "object": nm + " after merge (statistics had been read before)", "type": typ,
+                                "mean, variance reported": [float(o.get_result_mean()), float(o.get_result_var())],
+                                "mean, variance of the observations": [want_m, want_v]}
+            if typ != "MISC" and (a.num_updates != 7 or b.num_updates != 4):
+                return {"confirmed": True, "num_updates": [int(a.num_updates), int(b.num_updates)], "expected": [7, 4]}
+            return {"confirmed": False, "note": "real objects merge generic observations as specified (incl. statistics read before and after)"}
+        except Exception as e:
+            return {"confirmed": False, "error": "replay crashed: %r" % (e,)}
+
     def body(c, it):
         a = _havoc(c, it, _new(it, typ, acc), typ, "a", 1)
         b = _havoc(c, it, _new(it, typ, acc), typ, "b", 2)
         sa, sb = _snap(a), _snap(b)
+        if typ in ("SUM", "RATIO"):
+            c.assume((a.fields["num_updates"] >= 1) & (b.fields["num_updates"] >= 1))
+            _read_stats(it, a)              # history: statistics of both operands were read before the merge
+            _read_stats(it, b)
         it.call(it.getattr(a, "merge"), [b])
         sa2, sb2 = _snap(a), _snap(b)
-        goals = [Goal("view(self)' == view(self) + view(other)", sym.SBool(_eq(sa2, _plus_view(sa, sb, typ, acc)))),
+        more = (_stats_goals(c, it, a, "self after merge") + _stats_goals(c, it, b, "operand after merge")) if typ in ("SUM", "RATIO") else []
+        goals = more + [Goal("view(self)' == view(self) + view(other)", sym.SBool(_eq(sa2, _plus_view(sa, sb, typ, acc)))),
                  Goal("other unchanged", sym.SBool(_eq(sb2, sb))),
                  Goal("other's containers are the same objects, not shared with self",
                       sb2["ids"] == sb["ids"] and not (set(i for i in sa2["ids"] if True) & set(sb2["ids"][:2])))]
@@ -210,7 +276,7 @@ def ob_merge(typ, acc):
             it.call(it.getattr(a, "update"), [1])
             goals.append(Goal("later update of self leaves other unchanged", sym.SBool(_eq(_snap(b), sb))))
         return goals
-    return verify(body)
+    return verify(body, replay=rp)
 
 
 @obligation("result/monoid_laws", params=[{"typ": t, "acc": a} for t in TYPES for a in (False, True)],
@@ -614,6 +680,11 @@ def ob_combine():
         else:
             g1 = sorted(set(rr.randint(0, 10, size=rr.randint(1, 5)).tolist()))
             g2 = sorted(set(rr.randint(0, 10, size=rr.randint(1, 5)).tolist()))
+        if case["seed"] % 5 == 0:
+            # computed grids next to typed ones: k * 0.1 and the literal differ in the last bit for some k (3 * 0.1 != 0.3); they are
+            # different parameter values and are kept apart
+            g1 = [float(x) for x in np.arange(0, 0.1 * rr.randint(4, 9) - 0.05, 0.1)]
+            g2 = sorted(set(round(0.1 * k, 1) for k in rr.randint(0, 9, size=rr.randint(2, 5)).tolist()))
         if case.get("scale", 1.0) != 1.0:       # tiny (noise powers) and huge grids: values are matched exactly, never approximately
             g1 = [float(x) * case["scale"] for x in g1]
             g2 = [float(x) * case["scale"] for x in g2]
